@@ -334,6 +334,25 @@ template <class F, class Tree> void checkLookups(Tree& tree, long H, vh::Rng& r,
             }
         }
     }
+    // container-level lookup on every particle group: inside gaps, below the first and above the last leaf of the group
+    {
+        auto& pgs = tree.getParticleGroups();
+        for (size_t g = 0; g < pgs.size(); ++g) {
+            const auto& grp = pgs[g];
+            std::map<long, long> present; for (long i = 0; i < grp.getNbLeaves(); ++i) present[grp.getLeafSpacialIndex(i)] = i;
+            const long lo = grp.getStartingSpacialIndex(), hi = grp.getEndingSpacialIndex();
+            std::vector<long> qs;
+            if (hi - lo <= 300) for (long q = lo - 2; q <= hi + 2; ++q) qs.push_back(q);
+            else { for (auto& kv : present) { qs.push_back(kv.first); qs.push_back(kv.first + 1); qs.push_back(kv.first - 1); } qs.push_back(lo - 1); qs.push_back(hi + 1); qs.push_back(hi + 1000); }
+            for (long q : qs) {
+                const auto got = grp.getElementFromSpacialIndex(q);
+                auto it = present.find(q);
+                ++queries;
+                if (it == present.end()) { if (got) res.fail(tag + ":particle-group-element-found-but-absent", "group " + vh::str(g) + " index " + vh::str(q)); }
+                else { ++hits; if (!got || *got != it->second) res.fail(tag + ":particle-group-element-from-index", "group " + vh::str(g) + " index " + vh::str(q)); }
+            }
+        }
+    }
     res.ev("lookup-queries", queries); res.ev("lookup-hits", hits);
 }
 
